@@ -697,8 +697,8 @@ def run(tier: str, budget: Budget, rnd, arg) -> StreamResult:
     # ---------------------------------------------------------------- large player counts (oracle on the real code only)
     # n = 13 (thorough: 13, 14): coalition ids beyond 2^12 — table games with non-zero singleton values and cancelling
     # mixed-sign singletons; integer values, judged with the float tolerance (the surplus is not a power of two)
-    for n_big in ((13,) if tier == "quick" else (13, 14)):
-        for variant in ("positive", "cancelling"):
+    for n_big in ((13, 15) if tier == "quick" else (13, 14, 15, 16)):
+        for variant in (("positive", "cancelling") if n_big <= 14 else ("positive",)):
             if budget.left() < 12:
                 res.notes.append("large-n normalisation cases skipped (budget)")
                 break
@@ -746,6 +746,13 @@ def run(tier: str, budget: Budget, rnd, arg) -> StreamResult:
         if not Mx.any():
             Mx[0, n_s - 1] = 1
         Mx = Mx * (target / Mx.sum())                       # float scaling: the total is `target` up to rounding
+        if ti % 3 == 1:
+            # entries on and below the diagonal are ignored by the library (polished away at construction): inf / nan there
+            # (a distance matrix with an infinite diagonal, a half-filled matrix) must not reach any value
+            for a in range(n_s):
+                for b in range(a + 1):
+                    Mx[a, b] = [np.inf, np.nan, -np.inf, 7.0][(a + b + ti) % 4]
+            res.count("scale:non-finite-junk-below-the-diagonal")
         gg0 = GCG(Mx.copy())
         vals_g = [float(x) for x in gg0.get_values()]
         tot = vals_g[-1]
